@@ -53,6 +53,12 @@ def opsC19 : List (String × Handler) := [
       | [a, b] => let num ← nat a; let den ← nat b
                   if num == 0 then throw "zero-interval" else return toString (Spline.count num den)
       | _ => throw "arity"),
+  -- c19.flen num den  -> length of torch.arange(0, 1, num/den) in binary64 arithmetic
+  ("c19.flen", fun ts => do
+      match ts with
+      | [a, b] => let num ← nat a; let den ← nat b
+                  if num == 0 then throw "zero-interval" else return toString (Spline.floatLen num den)
+      | _ => throw "arity"),
   -- c19.chs N kk interval p0 … p_{N-1}        (one coordinate)  ->  outLen values
   ("c19.chs", fun ts => do
       let (N, ts) ← natTok ts
@@ -110,6 +116,14 @@ def opsC19 : List (String × Handler) := [
       let (n, ts) ← natTok ts
       let (ps, _) ← numsTok (7 * n) ts
       return fmtPairs (Traj.pairId (if pm == 0 then .frame else .distance) dN dl rt (all == 1) (se3List n ps))),
+  -- c19.mode align scale origin (0/1 each) -> mode(0 none,1 origin,2 svd) with_scale(0/1)
+  ("c19.mode", fun ts => do
+      match ts with
+      | [a, b, c] => let a ← nat a; let b ← nat b; let c ← nat c
+                     let r := Traj.modeOfFlags (a == 1) (b == 1) (c == 1)
+                     let m := match r.1 with | .none => 0 | .origin => 1 | .svd => 2
+                     return s!"{m} {if r.2 then 1 else 0}"
+      | _ => throw "arity"),
   -- c19.stats e1 … en -> max min mean median rmse sse std
   ("c19.stats", numeric fun xs => .ok (Traj.stats xs).toList),
   -- c19.mat2SO3 m(9 row-major) -> quaternion
